@@ -99,10 +99,15 @@ class GuardScan(object):
                         for a in x.args:
                             if isinstance(a, ast.Name) and a.id in defs:
                                 d, lo = defs[a.id]
-                                if lo[0] == hi[0] and len(lo) == 2:
-                                    self.pairs += 1
-                                    if lo[1] <= 0 < hi[1]:
-                                        self.findings.append((x, d, lo, hi))
+                            elif kernel_call(a) and call_prec(a, env) is not None:
+                                # the intermediate is written as a nested argument
+                                d, lo = st, call_prec(a, env)
+                            else:
+                                continue
+                            if lo[0] == hi[0] and len(lo) == 2:
+                                self.pairs += 1
+                                if lo[1] <= 0 < hi[1]:
+                                    self.findings.append((x, d, lo, hi))
             if isinstance(st, ast.Assign) and len(st.targets) == 1 and isinstance(st.targets[0], ast.Name):
                 t = st.targets[0].id
                 a = aff(st.value, env)
